@@ -1316,13 +1316,18 @@ impl Tuple {
         let bitmap_size = null_bitmap_size(num_values);
         let mut cursor = layout.delta_start();
         let mut last_needed_end = layout.delta_start();
+        // A reader at the horizon that can see nothing newer needs the newest version older than
+        // the horizon; only the versions behind that one are garbage.
+        let mut horizon_version_kept = layout.version_xmin() < oldest_active_xid;
 
         while cursor < self.data.len() {
             let (delta_header, header_end) =
                 DeltaHeader::read_from(self.data.effective_data(), cursor);
+            let below_horizon = delta_header.xmin() < oldest_active_xid;
 
             // If this delta's xmin >= oldest_active_xid, some transaction might still need it
-            if delta_header.xmin() >= oldest_active_xid {
+            if !below_horizon || !horizon_version_kept {
+                horizon_version_kept |= below_horizon;
                 let num_changes = self.data.effective_data()[header_end] as usize;
 
                 // Skip: num_changes byte + full bitmap
